@@ -40,6 +40,7 @@ def main():
             tier = sys.argv[i + 1]
         if a == "--checks":
             checks = sys.argv[i + 1].split(",")
+    checks_only = "--checks-only" in sys.argv  # re-run the checks against an already confirmed seed
     seed_id = os.environ.get("SEED_ID", pid + "-1")
     out = os.path.join(ROOT, "seeded", seed_id)
     os.makedirs(out, exist_ok=True)
@@ -48,8 +49,10 @@ def main():
     if "agent_meta" in meta:  # re-run on an already recorded seed: keep the original description
         meta = meta["agent_meta"]
     res = {"property": pid, "seed_id": seed_id, "agent_meta": meta, "confirmed": {}, "checks": {}}
+    prev_meta = {}
     try:  # keep the outcomes of checks that are not re-run now
-        res["checks"] = dict(json.load(open(os.path.join(out, "meta.json"))).get("checks", {}))
+        prev_meta = json.load(open(os.path.join(out, "meta.json")))
+        res["checks"] = dict(prev_meta.get("checks", {}))
     except Exception:
         pass
     wt = tempfile.mkdtemp(prefix="seedcheck-", dir="/tmp")
@@ -70,21 +73,28 @@ def main():
         files = [f for f in files.split() if f]
         res["touched_files"] = files
         pkgs = sorted(set("./" + os.path.dirname(f) for f in files if f.endswith(".go")))
-        rc, o = sh(["go", "build", "-overlay", ov] + pkgs, cwd=wt, env=goenv())
-        res["confirmed"]["builds"] = rc == 0
+        if checks_only:
+            res["confirmed"] = prev_meta.get("confirmed", {})
+            res["demo_run"] = prev_meta.get("demo_run")
+            res["demo_files"] = prev_meta.get("demo_files")
+        rc, o = (0, "") if checks_only else sh(["go", "build", "-overlay", ov] + pkgs, cwd=wt, env=goenv())
+        if not checks_only:
+            res["confirmed"]["builds"] = rc == 0
         # the chord package's own concurrent tests are flaky under machine load on the unchanged tree too:
         # "pass" = passes in one of up to three runs (the number of runs is recorded)
-        for attempt in range(1, 4):
+        for attempt in range(1, 4 if not checks_only else 1):
             rc, o = sh(["go", "test", "-overlay", ov, "-vet=off", "-count=1", "-timeout", "20m", "-p", "4"] + pkgs, cwd=wt, env=goenv(), timeout=2400)
             res["confirmed"]["existing_tests_runs"] = attempt
             if rc == 0:
                 break
-        res["confirmed"]["existing_tests_pass"] = rc == 0
-        res["confirmed"]["existing_tests_tail"] = o[-600:]
+        if not checks_only:
+            res["confirmed"]["existing_tests_pass"] = rc == 0
+            res["confirmed"]["existing_tests_tail"] = o[-600:]
         # demonstration
-        demo = os.path.join(src, "demo")
+        demo = os.path.join(src, "demo") if not checks_only else os.path.join(src, ".no-demo")
         run_txt = open(os.path.join(demo, "RUN.txt")).read().strip() if os.path.exists(os.path.join(demo, "RUN.txt")) else ""
-        res["demo_run"] = run_txt
+        if not checks_only:
+            res["demo_run"] = run_txt
         copied = []
         for dp, _, fns in os.walk(demo):
             for fn in fns:
@@ -120,7 +130,8 @@ def main():
                 os.makedirs(d, exist_ok=True)
                 shutil.copy(srcf, os.path.join(d, fn))
                 copied.append(os.path.join(dest_dir, fn))
-        res["demo_files"] = copied
+        if not checks_only:
+            res["demo_files"] = copied
         cmd = ""
         for line in reversed(run_txt.splitlines()):
             segs = [x.strip() for x in line.split("&&")]
